@@ -8,11 +8,11 @@ RULE = ("case = (generator type, construction path, jds, motif sizes, build call
         "per shuffle); exhaustive small family, ALL permutations: one topology N<=3 (quick) / N<=4 (thorough), entries "
         "<=2, column sums <=4; two topologies N<=2 with sums <=3 (quick) / <=4 (thorough) and N<=3 with entries <=1, "
         "sums <=3; sizes in {1,2,3}; seeded random: N<=12, <=4 topologies, sizes<=5, built-in and "
-        "synthetic callbacks, multi-orbit custom motifs; malformed stream (non-divisible sums, missing sizes/builders, "
+        "synthetic callbacks (results as tuple / list / list of lists; fast and custom generators: the bare edge also as a list [u, v]), multi-orbit custom motifs; malformed stream (non-divisible sums, missing sizes/builders, "
         "zero size, unequal orbit counts) where model and code must raise the same exception class; a share of the random "
         "cases are HISTORIES: 2-3 generations on the same algorithm object and the same jds list object (contents "
         "replaced in place, the previously returned object damaged in between, identical repeats), every call judged "
-        "against the model on the current contents; inputs and configuration are deep-compared before/after; a REPEATED-TUPLE "
+        "against the model on the current contents; in 40% of the histories the caller KEEPS every returned object untouched instead and reads it again after the last call (c02_check once more on the rows it shows then, against the callback results of the call that returned it: results of successive calls must not alias each other); inputs and configuration are deep-compared before/after; a REPEATED-TUPLE "
         "stream (and four corpus entries): as many vertices as the motif size, equal degrees, shuffle answers dealing the "
         "same ordered vertex tuple to every group of one topology, of several topologies with different library builders "
         "(diamond + 4-cycle on the same four vertices) and of 2-3 generations on one object. Judged by three verified "
@@ -189,7 +189,7 @@ def check_calls(case, impl_obs):
         calls.append(("c01_check_results", t if t is not None else VACUOUS_RESULTS))
         t = G.c02_check_tree(st, o)
         calls.append(("c02_check", t if t is not None else VACUOUS_ROWS))
-    return calls
+    return calls + G.later_check_calls(case, impl_obs, VACUOUS_ROWS)
 
 
 def st_code(case, j):
@@ -229,7 +229,8 @@ def check_verdict(case, impl_obs, raws):
                                                                          for f in ("edges", "names", "ids")))
             return ("c02_check rejected %s%s: the emitted rows are not, block by block, the edges the build callbacks "
                     "returned for the drawn stubs with their topology's name and one private id per instance" % (what, where))
-    return None
+    valid = [bool(total) and raws[3 * i] == 1 and raws[3 * i + 1] == 1 for i in range(len(steps))]
+    return G.later_verdict(case, impl_obs, raws[3 * len(steps):], valid)
 
 
 def nontrivial_key(case, impl_obs):
